@@ -36,7 +36,8 @@ ASSUMPTIONS = [
 ]
 MIN_NONTRIVIAL = {'quick': 1500, 'thorough': 30000}
 REQUIRED_MONITORS = ['records', 'csv:tracts_to_csv', 'csv:TractWriter',
-                     'proxy:writerow', 'audit:open', 'single-attribute']
+                     'proxy:writerow', 'audit:open', 'single-attribute',
+                     'csv:existing-empty', 'csv:TractWriter:reopen']
 
 TEXTS = [
     'T154N-R97W Sec 14: Lots 1(40.1), 2, N/2 of Lot 3, NE/4, "quoted", less '
@@ -202,7 +203,11 @@ def check_csv(case, d, ctx, pytrs, tmp):
     tracts = list(d.tracts)
     fp = os.path.join(tmp, f"f{ctx.evaluations}.csv")
     pre_rows = 0
-    if case['existing']:
+    if case['existing'] == 'empty':
+        # an existing file of size 0 (tempfile.mkstemp, touch)
+        ctx.hit('csv:existing-empty')
+        open(fp, 'w').close()
+    elif case['existing']:
         with open(fp, 'w', newline='') as f:
             csv.writer(f).writerow(['old', 'file'])
         pre_rows = 1
@@ -230,7 +235,15 @@ def check_csv(case, d, ctx, pytrs, tmp):
                else (pytrs.TractList(tracts[:1]), tracts[1:]) if how == 4
                else (t for t in tracts) if how == 5     # a generator
                else [iter(tracts[:1]), tracts[1:]])
-        n = w.write(arg, plus_cols=plus_data)
+        if case.get('reopen') and len(tracts) >= 2:
+            # two sessions of one writer: write, close, open, write, close
+            ctx.hit('csv:TractWriter:reopen')
+            n = w.write(tracts[:1], plus_cols=plus_data)
+            w.close()
+            w.open()
+            n += w.write(tracts[1:], plus_cols=plus_data)
+        else:
+            n = w.write(arg, plus_cols=plus_data)
         w.close()
         if n != len(tracts):
             ctx.violation('writer-count', case,
@@ -349,7 +362,8 @@ def gen_case(rng, pytrs, attrs=None):
     writer = rng.choice(['tracts_to_csv', 'TractWriter'])
     case = {'text': text, 'cfg': rng.choice(CONFIGS), 'attrs': attrs,
             'writer': writer, 'mode': rng.choice(['w', 'w', 'a']),
-            'existing': rng.random() < 0.4, 'nice': nice,
+            'existing': rng.choice([False, False, False, True, True,
+                                    'empty']), 'nice': nice,
             'holder': rng.choice(['PLSSDesc', 'TractList']),
             'source': rng.choice([None, 'doc-17', 5, {'tuple': ['doc', 3]},
                                   {'list': ['a', 'b']},
@@ -357,6 +371,7 @@ def gen_case(rng, pytrs, attrs=None):
     if writer == 'TractWriter':
         case['plus_cols'] = rng.choice([None, None, ['extra'], ['a', 'b']])
         case['uid'] = rng.choice([None, None, 1, 27])
+        case['reopen'] = rng.random() < 0.3
     return case
 
 
